@@ -473,12 +473,47 @@ def _cong2(s, o):
     return p
 
 
+def _poly_divmod(a, b):
+    """a == Q*b + R where Q*b collects the monomials of a (sum-of-monomials form) that contain the variable b as a factor.
+    Returns (Q, R) or None if b is not a variable.  Purely syntactic; the caller checks 0 <= R < b with the solver."""
+    if not (z3.is_const(b) and b.decl().kind() == z3.Z3_OP_UNINTERPRETED):
+        return None
+    t = z3.simplify(a, som=True)
+    terms = t.children() if (z3.is_app(t) and t.decl().kind() == z3.Z3_OP_ADD) else [t]
+    Q, R = [], []
+    for m in terms:
+        fac, todo = [], [m]
+        while todo:
+            x = todo.pop()
+            if z3.is_app(x) and x.decl().kind() == z3.Z3_OP_MUL:
+                todo.extend(reversed(x.children()))
+            else:
+                fac.append(x)
+        idx = next((i for i, f in enumerate(fac) if f.eq(b)), None)
+        if idx is None:
+            R.append(m)
+        else:
+            rest = fac[:idx] + fac[idx + 1:]
+            Q.append(z3.IntVal(1) if not rest else (rest[0] if len(rest) == 1 else z3.Product(*rest)))
+    if not Q:
+        return None
+    return (Q[0] if len(Q) == 1 else z3.Sum(*Q)), (z3.IntVal(0) if not R else (R[0] if len(R) == 1 else z3.Sum(*R)))
+
+
 def _pydivmod(a, b):
     """Python floor divmod for symbolic divisor b (z3 div/mod are Euclidean). Quotient forking."""
     ctx = Ctx.cur
     if ctx.check(b == 0) != 'unsat':
         if ctx.branch(b == 0):
             raise ZeroDivisionError('integer division or modulo by zero')
+    if SYM_DIV[0] and ctx.check(b <= 0) == 'unsat':
+        pd = _poly_divmod(a, b)
+        if pd is not None and ctx.check(z3.Not(z3.And(pd[1] >= 0, pd[1] < b))) == 'unsat':
+            return SymInt(pd[0]), SymInt(pd[1], 0, None)      # exact by construction: a == Q*b + R with 0 <= R < b on this path
+        # positive symbolic divisor, no forking: fresh quotient q with 0 <= a - q*b < b (definitional extension)
+        q = ctx.aux('quo')
+        ctx.add_side(z3.And(a - q * b >= 0, a - q * b < b))
+        return SymInt(q), SymInt(a - q * b, 0, None)
     qe, re = a / b, a % b
     q = z3.If(z3.Or(b > 0, re == 0), qe, qe - 1)       # b < 0, re != 0: floor(a/b) = qe - 1 (z3 div is Euclidean)
     v = ctx.concretize(q)
@@ -892,6 +927,7 @@ class InvConst(builtins.int):
 
 
 EXACTDIV = [True]
+SYM_DIV = [False]     # symbolic/symbolic floor division by a positive divisor without quotient forking (set by harnesses)
 EAGER_MOD_MAX = [0]   # moduli up to this are reduced eagerly (no congruence view)
 FORK_MOD_MAX = [0]      # x % n with n <= this forks on the residue (set by harnesses of masked-opening protocols)
 
